@@ -9,6 +9,8 @@ pub mod canon;
 pub mod driver;
 pub mod env;
 pub mod gen;
+pub mod history;
+pub mod history_engine;
 pub mod json;
 pub mod prog;
 pub mod refint;
